@@ -257,6 +257,9 @@ where
         let mut files = HashMap::new();
         let mut dirs = HashMap::new();
 
+        // The root directory exists even if the archive is empty
+        register_dir(&mut dirs, SharedString::from(""));
+
         for file in archive.entries_with_seek()? {
             register_file(file?, &mut files, &mut dirs, &mut id_builder)
         }
